@@ -3,6 +3,7 @@ package interpreter
 import (
 	"sync"
 
+	"github.com/krotik/ecal/engine"
 	"github.com/krotik/ecal/parser"
 	zz "github.com/krotik/ecal/zzverif"
 )
@@ -205,4 +206,42 @@ func VerifC12Handover() {
 	_, err = zzRunTid(erp, "mutex a {\n r := 1\n}", vs, 9)
 	zz.Assert(err == nil, "C12.later-entrant-gets-in")
 	zz.Reach("later-entrant-done")
+}
+
+// VerifC12SinkThreads: the threads that contend are sink invocations on pool workers (two workers, two events of one
+// kind added one after the other): the first invocation is held inside its block by a gate, the second one has to wait
+// (it is another thread, not a re-entrant entry); after the gate opens both complete, the counter updated only inside
+// the block has lost nothing and a later entrant gets in.
+func VerifC12SinkThreads() {
+	InbuildFuncMap["hold"] = &c12Hold{}
+	c12Occ["a"], c12MaxOcc["a"] = 0, 0
+	erp, _ := zzProvider()
+	erp.Processor = engine.NewProcessor(2)
+	vs := zzScope()
+	vs.SetValue("cnt", 0.0)
+	src := "sink s\n  kindmatch [ \"job\" ],\n  {\n    mutex a {\n      c := cnt\n      hold(\"a\", event.state.gate)\n      cnt := c + 1\n    }\n  }\n"
+	_, err := zzRun(erp, src, vs)
+	zz.Assert(err == nil, "C12.setup")
+	for i := range c12Gates {
+		c12Gates[i].Lock()
+	}
+	proc := erp.Processor
+	proc.Start()
+	m1 := proc.NewRootMonitor(nil, nil)
+	proc.AddEvent(engine.NewEvent("e1", []string{"job"}, map[interface{}]interface{}{"gate": 0.0}), m1)
+	zz.Quiesce() // the first invocation is inside the block, at its gate
+	zz.Assert(c12Occ["a"] == 1, "C12.first-entrant-gets-in")
+	m2 := proc.NewRootMonitor(nil, nil)
+	proc.AddEvent(engine.NewEvent("e2", []string{"job"}, map[interface{}]interface{}{"gate": 1.0}), m2)
+	zz.Quiesce() // the second invocation (another worker) has to wait
+	zz.Reach("second-invocation-arrived")
+	zz.Assert(c12MaxOcc["a"] <= 1, "C12.mutual-exclusion")
+	c12Gates[0].Unlock()
+	c12Gates[1].Unlock()
+	zz.Quiesce()
+	zz.Assert(m1.IsFinished() && m2.IsFinished(), "C12.later-entrant-gets-in")
+	zz.Assert(c12MaxOcc["a"] <= 1 && c12Occ["a"] == 0, "C12.mutual-exclusion")
+	cnt, _, _ := vs.GetValue("cnt")
+	zz.Assert(cnt == 2.0, "C12.no-lost-update")
+	zz.Reach("all-done")
 }
